@@ -122,25 +122,37 @@ func (s *Server) servePacket(pc net.PacketConn) error {
 	// closeCh is used to receive notifications of socket closures from
 	// packetConn, which allows us to remove stale connections (whose
 	// proxy handlers have completed) from the udpConns map.
-	closeCh := make(chan string, 10)
+	closeCh := make(chan *packetConn, 10)
 	for {
 		select {
-		case addr := <-closeCh:
+		case conn := <-closeCh:
 			// UDP connection is closed (either implicitly through timeout or by
-			// explicit call to Close()).
-			delete(udpConns, addr)
+			// explicit call to Close()). Notifications may arrive late (and twice),
+			// so only forget the connection if it has not been replaced already.
+			if udpConns[conn.addr.String()] == conn {
+				delete(udpConns, conn.addr.String())
+			}
 
 		case pkt := <-packets:
 			if pkt.err != nil {
 				return pkt.err
 			}
 			conn, ok := udpConns[pkt.addr.String()]
+			if ok {
+				select {
+				case <-conn.done:
+					// closed, but the notification has not been processed yet
+					ok = false
+				default:
+				}
+			}
 			if !ok {
 				// No existing proxy handler is running for this downstream.
 				// Create one now.
 				conn = &packetConn{
 					PacketConn: pc,
 					readCh:     make(chan *packet, 5),
+					done:       make(chan struct{}),
 					addr:       pkt.addr,
 					closeCh:    closeCh,
 				}
@@ -155,7 +167,13 @@ func (s *Server) servePacket(pc net.PacketConn) error {
 					// the old one shutting down.
 				}(conn)
 			}
-			conn.readCh <- &pkt
+			select {
+			case conn.readCh <- &pkt:
+			case <-conn.done:
+				// The connection was closed while its queue was full; the
+				// datagram is lost with it.
+				udpBufPool.Put(pkt.pooledBuf)
+			}
 		}
 	}
 }
@@ -235,7 +253,12 @@ type packetConn struct {
 	net.PacketConn
 	addr    net.Addr
 	readCh  chan *packet
-	closeCh chan string
+	closeCh chan *packetConn
+	// done is closed by Close(). readCh itself is never closed, because the
+	// server loop may be sending on it at that very moment (a send on a closed
+	// channel panics and would take the whole server down).
+	done      chan struct{}
+	closeOnce sync.Once
 	// If not nil, then the previous Read() call didn't consume all the data
 	// from the buffer, and this packet will be reused in the next Read()
 	// without waiting for readCh.
@@ -318,6 +341,10 @@ func (pc *packetConn) Read(b []byte) (n int, err error) {
 		case <-pc.idleTimer.C:
 			done = true
 			break
+		case <-pc.done:
+			// Close() was called from another goroutine. Return EOF below.
+			done = true
+			break
 		}
 	}
 	// Idle timeout simulates socket closure.
@@ -325,7 +352,7 @@ func (pc *packetConn) Read(b []byte) (n int, err error) {
 	// Although Close() also does this, we inform the server loop early about
 	// the closure to ensure that if any new packets are received from this
 	// connection in the meantime, a new handler will be started.
-	pc.closeCh <- pc.addr.String()
+	pc.closeCh <- pc
 	// Returning EOF here ensures that io.Copy() waiting on the downstream for
 	// reads will terminate.
 	return 0, io.EOF
@@ -341,14 +368,19 @@ func (pc *packetConn) Close() error {
 		pc.lastPacket = nil
 	}
 	// This will abort any active Read() from another goroutine and return EOF
-	close(pc.readCh)
+	pc.closeOnce.Do(func() { close(pc.done) })
 	// Drain pending packets to ensure we release buffers back to the pool
-	for pkt := range pc.readCh {
-		udpBufPool.Put(pkt.pooledBuf)
+	for drained := false; !drained; {
+		select {
+		case pkt := <-pc.readCh:
+			udpBufPool.Put(pkt.pooledBuf)
+		default:
+			drained = true
+		}
 	}
 	// We may have already done this earlier in Read(), but just in case
 	// Read() wasn't being called, (re-)notify server loop we're closed.
-	pc.closeCh <- pc.addr.String()
+	pc.closeCh <- pc
 	// We don't call net.PacketConn.Close() here as we would stop the UDP
 	// server.
 	return nil
